@@ -351,6 +351,17 @@ func runCheck(eng *Engine, prop, tier string, verbose, noReplay bool) int {
 		}
 	}
 	sort.Strings(wraps)
+	// entry preconditions: a verified function whose contract has requires clauses and that no function verified in this run
+	// calls -- nothing checks that its callers in the repository establish them
+	for _, r := range results {
+		if c := eng.cs.Funcs[r.Key]; c != nil && !c.used && len(c.Requires) > 0 {
+			var srcs []string
+			for _, q := range c.Requires {
+				srcs = append(srcs, q.Src)
+			}
+			assume["entry precondition (no verified caller establishes it): "+r.Key+": "+strings.Join(srcs, " && ")] = true
+		}
+	}
 	for _, k := range eng.cs.Assumed {
 		if eng.cs.Funcs[k].used {
 			assume["trusted contract (assumed, never checked): "+k] = true
